@@ -60,6 +60,10 @@ def gen_cases(tier, seed):
             gz = [c for c in cs if c.get("method") == "gonze"]
             wg = [c for c in cs if c.get("method") == "wang"]
             pick = gz[::max(1, len(gz) // per)][:per] + wg[::max(1, len(wg) // 3)][:3]
+        if sub == "c12":
+            # the compiled derivative with the Wang term on low-symmetry polar cells (Born tensors without any symmetry) must be among the cases
+            low = [c for c in cs if c.get("kind") == "deriv" and c.get("nac") == "wang" and c.get("lang") == "C" and c["crystal"]["name"] in ("tric2", "tric3")][:2]
+            pick = low + [c for c in pick if c not in low][:per]
         if sub == "c04":
             pick = [c for c in cs if c.get("kind") in ("primitive", "primitive_explicit")][:per]
         for i, c in enumerate(pick):
